@@ -47,9 +47,9 @@ ASSUMPTIONS = [
     "fuel/timeout/crash of a workload is inconclusive; sizes are bounded (quick n <= 8000, thorough n <= 131072, controls n <= 8000)",
 ]
 PLAN = {
-    "quick": {"sizes": [2000, 4000, 8000], "control_sizes": [1000, 4000], "mixtures": 32, "mix_bases": [1000], "shards": 16},
+    "quick": {"sizes": [2000, 4000, 8000], "control_sizes": [1000, 4000], "mixtures": 32, "mix_bases": [1000], "group_weight": 6, "shards": 16},
     "thorough": {"sizes": [1000, 2000, 4000, 8000, 16000, 32000, 64000, 128000], "control_sizes": [1000, 2000, 4000, 8000],
-                 "mixtures": 320, "mix_bases": [1000, 2000, 4000, 8000, 16000], "shards": 16},
+                 "mixtures": 320, "mix_bases": [1000, 2000, 4000, 8000, 16000], "group_weight": 14, "shards": 16},
 }
 REG = dict(level="exploration", min_nontrivial=400, min_nontrivial_thorough=2000, max_inconc=0.02,
            technique="allocation-scaling runtime monitor: exact counting allocator around one loop statement per (family, aliasing variant, size), measured payload threshold, Rc strong-count precondition, copying control programs as sensitivity self-check",
@@ -61,6 +61,7 @@ PROBE_THRESHOLD = 2048
 L_PER_COLLECTION = 8
 L_PER_HOLDER = 2
 RATIO_MAX = 6.0
+MEM = 3 << 30
 
 
 # ---------------------------------------------------------------- families
@@ -252,7 +253,7 @@ def measure_payload(w, setup, probe_src, kind, n, cache, ckey):
     if ckey in cache:
         return cache[ckey]
     stmts = ["; ".join(subst(s, n) for s in setup), "__p := " + subst(probe_src, n), PROBE_MUT[kind]]
-    evs = core.eval_all(w, stmts, alloc=True, big_threshold=PROBE_THRESHOLD, values=False, fuel=_fuel(n), jid="c02p")
+    evs = core.eval_all(w, stmts, alloc=True, big_threshold=PROBE_THRESHOLD, values=False, fuel=_fuel(n), mem=MEM, jid="c02p")
     res = (None, "probe:" + "/".join(str(e.get("o")) for e in evs))
     if len(evs) == 3 and all(e.get("o") == "ok" for e in evs):
         a = evs[2].get("alloc") or {}
@@ -294,7 +295,8 @@ def check_precondition(shinfo, depth, alias_depth, expect):
 def run_case(w, setup, extra, loop, n, threshold, observe):
     """One measured job: [setup; aliases] then the loop.  Returns (events, job)."""
     stmts = ["; ".join(subst(s, n) for s in list(setup) + list(extra)), subst(loop, n)]
-    opts = dict(alloc=True, big_threshold=threshold, share=True, observe=list(observe), values=False, fuel=_fuel(n))
+    # mem: the harness's live-bytes budget per job; the canonical dump of a 400 000-element list alone needs ~300 MB
+    opts = dict(alloc=True, big_threshold=threshold, share=True, observe=list(observe), values=False, fuel=_fuel(n), mem=MEM)
     evs = core.eval_all(w, stmts, jid="c02", **opts)
     job = {"kind": "eval", "stmts": stmts, "fuel": _fuel(n)}
     job.update(opts)
@@ -416,7 +418,7 @@ def exec_case(sh, w, grp, f_name, keyname, variant, n, setup, extra, loop, probe
     bound = L_PER_COLLECTION * C + L_PER_HOLDER * H
     sh.seen(case, nontrivial=True)
     sh.count("cases:control" if control else "cases:family")
-    sh.count("variant:" + variant)
+    sh.count("variant:" + (variant if "," not in variant and ":" not in variant else "mix"))
     sh.count("size:%d" % n)
     sh.count("L=%s" % (L if L <= 4 else "5..%d" % bound if L <= bound else ">bound"))
     sh.count("bytes_requested_total", B)
@@ -429,7 +431,7 @@ def exec_case(sh, w, grp, f_name, keyname, variant, n, setup, extra, loop, probe
     per_elem = B / max(1, n)
     sh.sample({"case": case, "setup": job["stmts"][0][:160], "loop": job["stmts"][1], "payload_bytes": payload,
                "big_threshold": threshold, "L": L, "B": B, "bytes_per_n": round(per_elem, 1), "bound": bound,
-               "sharing_before": (shi.get(observe_specs[0][0]) or [])[:3]}, cap=2)
+               "sharing_before[depth,kind,strong]": [[d, k, c] for d, k, p, c in (shi.get(observe_specs[0][0]) or [])[:3]]}, cap=2)
     grp.add(case=case, fam=f_name, keyname=keyname, variant=variant, n=n, L=L, B=B, bound=bound, control=control, job=job,
             payload=payload, threshold=threshold)
 
@@ -483,6 +485,7 @@ def gen_mixture(r):
     aliases = {}
     extra = []
     tags = []
+    counts_alias = []
     for c in used:
         mode = r.choice(["un", "un", "al1", "box", "al2", "rel"])
         if mode == "al1":
@@ -500,6 +503,7 @@ def gen_mixture(r):
         else:
             aliases[c] = 0
         tags.append("%s:%s" % (c, mode))
+        counts_alias.append(mode)
     driver = r.choice(["for", "for", "while", "closure"])
     seq = "; ".join(body)
     victim = r.choice(used)
@@ -520,7 +524,7 @@ def gen_mixture(r):
         loop = FOR + "__f(i)"
         cloop = FOR + "__fc(i)"
     return dict(ops=names, used=used, setup=setup + dsetup + ["__c := null"], extra=extra, loop=loop, control_loop=cloop,
-                aliases=aliases, driver=driver, tags=tags, victim=victim)
+                aliases=aliases, driver=driver, tags=tags, victim=victim, alias_modes=counts_alias)
 
 
 def run_mixtures(sh, w, r, count, bases, cache, ctl_sizes):
@@ -545,6 +549,8 @@ def run_mixtures(sh, w, r, count, bases, cache, ctl_sizes):
             sh.count("mix:driver:" + m["driver"])
         for o in set(m["ops"]):
             sh.count("mix:op:" + o)
+        for am in m["alias_modes"]:
+            sh.count("mix:alias:" + am)
         sh.count("mix:collections:%d" % len(m["used"]))
         # one control per eight mixtures (and always for the first): the same body with an alias of one
         # collection taken in every iteration
@@ -580,14 +586,14 @@ def run_group(sh, w, gname, ctx, cache):
     grp.decide()
 
 
-def plan_shards(n, mixtures):
+def plan_shards(n, mixtures, group_weight):
     """-> per shard (list of group names, number of mixtures).  Groups (each with its own controls) are dealt
     round-robin; the mixtures go preferentially to the shards that have fewer groups (a group costs about
-    as much as GROUP_WEIGHT mixtures)."""
+    as much as group_weight mixtures)."""
     groups = [[] for _ in range(n)]
     for gi, g in enumerate(GROUPS):
         groups[gi % n].append(g)
-    load = [GROUP_WEIGHT * len(g) for g in groups]
+    load = [group_weight * len(g) for g in groups]
     mix = [0] * n
     for _ in range(mixtures):
         i = min(range(n), key=lambda j: (load[j], j))
@@ -596,15 +602,12 @@ def plan_shards(n, mixtures):
     return list(zip(groups, mix))
 
 
-GROUP_WEIGHT = 4
-
-
 def shard(ctx, si, n):
     sh = core.Shard("C02")
     w = core.Worker(cpu_budget=120.0)
     cache = {}
     try:
-        groups, mine = plan_shards(n, ctx.plan["mixtures"])[si]
+        groups, mine = plan_shards(n, ctx.plan["mixtures"], ctx.plan.get("group_weight", 6))[si]
 
         def cpu():
             return time.process_time() + (core._cpu_seconds(w.p.pid) or 0.0)
